@@ -27,7 +27,8 @@ thread_local! {
 
 pub(crate) fn record_call(op: &'static str, function: Option<&str>, base: u8, nargs: u8, pool: &[bool; 256]) {
     let first = base as usize + nargs as usize + 1;
-    let in_use_above: Vec<u8> = (first..256).filter(|&i| pool[i]).map(|i| i as u8).collect();
+    // register 255 is reserved (never handed out, never live)
+    let in_use_above: Vec<u8> = (first..255).filter(|&i| pool[i]).map(|i| i as u8).collect();
     CALLS.with(|c| {
         let mut c = c.borrow_mut();
         c.0 += 1;
